@@ -1,7 +1,7 @@
 (* Entry points evaluated by the extracted driver: one harness case -> one report line. *)
 From Coq Require Import Ascii String.
 From Coq Require Import List NArith ZArith QArith Bool Arith.
-From V Require Import Str Num Tok Tables Items Read WellFormed Doc Case Pipeline Document.
+From V Require Import Str Num Tok Tables Items Read Decode WellFormed Doc Case Paginate Pipeline Document Checks.
 Import ListNotations.
 Local Open Scope string_scope.
 Local Open Scope list_scope.
@@ -98,6 +98,35 @@ Definition run_c01 (id : str) (d : doc) (impl : sexp) : str :=
   | _ => line [kv "id" id; kv "bad" (s2l "impl")]
   end.
 
+Definition zlist_str (l : list Z) : str := join [44%N] (map dec_of_Z l).
+
+(* generic wrapper for predicates on the parsed output of a successful encode *)
+Definition with_parsed (id : str) (d : doc) (impl : sexp) (k : pdoc -> list str) : str :=
+  match impl with
+  | SList [SNum [49%N]; SStr out] =>
+    match read_doc (lex out) with
+    | Some pd => line (kv "id" id :: kv "tie" (bool_str (doc_tie d)) :: k pd)
+    | None => line [kv "id" id; kv "tie" (bool_str (doc_tie d)); kv "agree" (s2l "0"); kv "holds" (s2l "1");
+                    kv "unparsed" (s2l "1")]
+    end
+  | SList [SNum [48%N]; SStr cls] =>
+    (* refusals are C01's business; here they only count when the model encodes *)
+    line [kv "id" id; kv "tie" (bool_str (doc_tie d));
+          kv "agree" (bool_str (match encode d with Err e => str_eqb (err_name e) cls | Ok _ => false end));
+          kv "holds" (s2l "1"); kv "refused" (safe cls)]
+  | _ => line [kv "id" id; kv "bad" (s2l "impl")]
+  end.
+
+Definition run_c04 (id : str) (d : doc) (impl : sexp) : str :=
+  with_parsed id d impl (fun pd =>
+    let '(cl, pages) := check_c04 d pd in
+    [kv "holds" (bool_str (Nat.eqb cl 0)); kv "clause" (nat_str cl);
+     kv "agree" (bool_str (match model_pages_c04 d with
+                           | Some mp => list_eqb Z.eqb mp pages
+                           | None => match d_content d with CSingle _ _ => false | _ => true end end));
+     kv "pages" (zlist_str pages);
+     kv "npages" (nat_str (length (observed_pages pd)))]).
+
 Definition run_case (e : sexp) : str :=
   match e with
   | SList [SStr mode; SStr id; de; impl] =>
@@ -106,6 +135,7 @@ Definition run_case (e : sexp) : str :=
     | Some d =>
       if str_eqb mode (s2l "corr") then run_corr id d impl
       else if str_eqb mode (s2l "c01") then run_c01 id d impl
+      else if str_eqb mode (s2l "c04") then run_c04 id d impl
       else line [kv "id" id; kv "bad" (s2l "mode")]
     end
   | _ => s2l "bad=case"
